@@ -5,7 +5,7 @@ ENTRY = {'title': 'Payload decoding conforms to the ecoNET wire layout for every
  'technique': 'Lean 4 round-trip theorems decode(encode m ++ rest) = (valOf m, rest) for every structure and the whole sensor chain (wire layout '
               'written once as encoders = the specification) + correspondence: Lean-encoded messages decoded by the real frames, plus a malformed '
               'stream',
- 'prop_modules': ['C05Sensors', 'C05Params', 'C05Device', 'C05Short', 'C05Uid', 'C05ShortParams', 'TieUid', 'TieParams', 'TieSchedule', 'TieStructParams'],
+ 'prop_modules': ['C05Sensors', 'C05Params', 'C05Ctx', 'C05CtxDevice', 'C05Device', 'C05Short', 'C05Uid', 'C05ShortParams', 'TieUid', 'TieParams', 'TieSchedule', 'TieStructParams'],
  'uses_tables': True,
  'level_text': 'Proof: for ALL well-formed abstract messages and ALL trailing bytes the decoder model run on the Lean-defined encoding returns '
                'exactly the encoded values and the remainder: the 16-section sensor chain (`rt_sensorData`, every presence combination; per-section '
@@ -41,6 +41,11 @@ ENTRY = {'title': 'Payload decoding conforms to the ecoNET wire layout for every
              'parameter blocks (ecoMAX, mixer, thermostat), hole sentinel': 'theorem (rt_params_*, hole_iff)',
              'schedules, alerts, UID, password': 'theorem (rt_schedules, rt_alerts, rt_uid, rt_password)',
              'names / constants / tables': 'table (translator + decide lemmas)',
+             'decoding gives the same result every time, whatever device the frame belongs to: what each kind may read of the owning device':
+                 'theorem (Model/DecodeCtx: C05.ctx_irrelevant_* for eight kinds, ctx_irrelevant, product_type_irrelevant, thermostat_reads_only_the_count, '
+                 'regdata_reads_only_the_schema, regdata_no_device_is_empty_schema; device level (Props/C05CtxDevice over Model/DeviceData): device_thermo_decodes_with_ctx, device_regdata_decodes_with_ctx, applyThermo_count, handleRegdata_schema, handled_again_same_decode (after a device has handled a frame, the payload of that frame decodes for this device to what it decoded to before); thermostat_ctx_relevant / regdata_ctx_relevant: the two dependences are real) + '
+                 'correspondence (harness/c05_ctx.py: every class with a decode_message of its own x 9-10 contexts, grouped by what the theorem allows; device level: one '
+                 'frame object handled by a device, again, by a second device, fresh frame after the device data changed; payload bytes compared at every step)',
              'decoding is pure and repeatable': 'definitional in the model + correspondence (decode twice, fresh frame, payload bytes unchanged)',
              'truncated sensor-data payloads: exactly which strict prefixes are errors': 'theorem (short_payload_errors, '
                                                                                          'short_payload_tail_ok) + correspondence (every truncation '
